@@ -9,6 +9,8 @@
 //!   mock's call log and the values the profiler returned are printed.
 //! * `record`  — C10, the recording step: a real `Bencher` run on 1..3 threads; per-round
 //!   per-thread tallied operations and the dump of `alloc_info_by_sample`.
+//! * `nest`    — C09 with a re-entrant wrapped allocator: `ReMock` issues scripted nested
+//!   requests through a profiler (the same or a second instance) while serving a request.
 //! * `churn`   — C09, run-time part: runs `hx-alloc-global` (src/bin) as a subprocess.
 //!
 //! `PROF` is *not* the global allocator of this process, and `Mock` never
@@ -530,6 +532,151 @@ fn record(line: &str) -> String {
     )
 }
 
+// ---------------------------------------------------------------------------
+// nest: C09 with a re-entrant wrapped allocator
+// ---------------------------------------------------------------------------
+//
+// `ReMock`, while serving a request, issues the nested requests its script
+// prescribes through a profiler (`NEST_P` wrapping it, or the second instance
+// `NEST_Q`), then answers. Case: pre-order list of `depth:via:request` with the
+// request tokens of `prof`. Printed: everything `ReMock` received, in order;
+// what every requester (the harness for depth 0, `ReMock` for nested requests)
+// got back, in the order the requests were issued; the thread's tally.
+
+struct ReMock;
+
+struct NestNode {
+    via: u8,
+    req: Vec<String>,
+    answer: usize,
+    children: Vec<NestNode>,
+}
+
+thread_local! {
+    /// Requests issued and not yet received by `ReMock` (innermost last).
+    static PENDING: RefCell<Vec<*const NestNode>> = RefCell::new(Vec::new());
+    static NEST_RETS: RefCell<Vec<(usize, String)>> = RefCell::new(Vec::new());
+    static NEST_ID: Cell<usize> = Cell::new(0);
+    static NEST_SERVED: Cell<usize> = Cell::new(0);
+}
+
+static NEST_P: AllocProfiler<ReMock> = AllocProfiler::new(ReMock);
+static NEST_Q: AllocProfiler<ReMock> = AllocProfiler::new(ReMock);
+
+unsafe fn nest_issue(node: &NestNode) {
+    let id = NEST_ID.with(|c| {
+        let i = c.get();
+        c.set(i + 1);
+        i
+    });
+    PENDING.with(|p| p.borrow_mut().push(node as *const NestNode));
+    let prof: &AllocProfiler<ReMock> = if node.via == b'q' { &NEST_Q } else { &NEST_P };
+    let r = &node.req;
+    let ret = match r[0].as_str() {
+        "a" => (prof.alloc(Layout::from_size_align(num(&r[1]), num(&r[2])).expect("layout")) as usize).to_string(),
+        "z" => (prof.alloc_zeroed(Layout::from_size_align(num(&r[1]), num(&r[2])).expect("layout")) as usize).to_string(),
+        "r" => (prof.realloc(num(&r[1]) as *mut u8, Layout::from_size_align(num(&r[2]), num(&r[3])).expect("layout"), num(&r[4]))
+            as usize)
+            .to_string(),
+        "d" => {
+            prof.dealloc(num(&r[1]) as *mut u8, Layout::from_size_align(num(&r[2]), num(&r[3])).expect("layout"));
+            "-".to_string()
+        }
+        _ => panic!("bad request {:?}", r),
+    };
+    // a request that never reached ReMock is still pending: drop it
+    PENDING.with(|p| {
+        let mut p = p.borrow_mut();
+        if p.last().copied() == Some(node as *const NestNode) {
+            p.pop();
+        }
+    });
+    NEST_RETS.with(|x| x.borrow_mut().push((id, ret)));
+}
+
+/// What `ReMock` does with a request it received: the nested requests, then the answer.
+unsafe fn nest_serve() -> usize {
+    let node = PENDING.with(|p| p.borrow_mut().pop());
+    match node {
+        Some(n) => {
+            let n = &*n;
+            NEST_SERVED.with(|c| c.set(c.get() + 1));
+            for c in &n.children {
+                nest_issue(c);
+            }
+            n.answer
+        }
+        None => 0,
+    }
+}
+
+unsafe impl GlobalAlloc for ReMock {
+    unsafe fn alloc(&self, l: Layout) -> *mut u8 {
+        LOG.with(|g| g.borrow_mut().push(format!("a:{}:{}", l.size(), l.align())));
+        nest_serve() as *mut u8
+    }
+    unsafe fn alloc_zeroed(&self, l: Layout) -> *mut u8 {
+        LOG.with(|g| g.borrow_mut().push(format!("z:{}:{}", l.size(), l.align())));
+        nest_serve() as *mut u8
+    }
+    unsafe fn realloc(&self, p: *mut u8, l: Layout, new_size: usize) -> *mut u8 {
+        LOG.with(|g| g.borrow_mut().push(format!("r:{}:{}:{}:{}", p as usize, l.size(), l.align(), new_size)));
+        nest_serve() as *mut u8
+    }
+    unsafe fn dealloc(&self, p: *mut u8, l: Layout) {
+        LOG.with(|g| g.borrow_mut().push(format!("d:{}:{}:{}", p as usize, l.size(), l.align())));
+        let _ = nest_serve();
+    }
+}
+
+fn nest_parse(items: &[(usize, u8, Vec<String>)], pos: &mut usize, depth: usize) -> Vec<NestNode> {
+    let mut out = Vec::new();
+    while *pos < items.len() && items[*pos].0 == depth {
+        let (_, via, f) = &items[*pos];
+        *pos += 1;
+        let (req, answer) = match f[0].as_str() {
+            "a" | "z" => (f[..3].to_vec(), num(&f[3])),
+            "r" => (f[..5].to_vec(), num(&f[5])),
+            _ => (f.clone(), 0),
+        };
+        let children = nest_parse(items, pos, depth + 1);
+        out.push(NestNode { via: *via, req, answer, children });
+    }
+    out
+}
+
+fn nest(line: &str) -> String {
+    let mut it = line.split(' ').filter(|t| !t.is_empty());
+    if !build_ok(it.next().expect("flag")) {
+        return "build-mismatch".into();
+    }
+    let items: Vec<(usize, u8, Vec<String>)> = it
+        .map(|t| {
+            let f: Vec<&str> = t.split(':').collect();
+            (f[0].parse().expect("depth"), f[1].as_bytes()[0], f[2..].iter().map(|x| x.to_string()).collect())
+        })
+        .collect();
+    let mut pos = 0;
+    let forest = nest_parse(&items, &mut pos, 0);
+    assert_eq!(pos, items.len(), "malformed forest");
+    v::thread_alloc_clear();
+    LOG.with(|g| g.borrow_mut().clear());
+    PENDING.with(|p| p.borrow_mut().clear());
+    NEST_RETS.with(|x| x.borrow_mut().clear());
+    NEST_ID.with(|c| c.set(0));
+    NEST_SERVED.with(|c| c.set(0));
+    for n in &forest {
+        unsafe { nest_issue(n) };
+    }
+    let log = LOG.with(|g| g.borrow().join(","));
+    let mut rets = NEST_RETS.with(|x| x.borrow().clone());
+    rets.sort();
+    let rets: Vec<String> = rets.into_iter().map(|(_, r)| r).collect();
+    let served = NEST_SERVED.with(|c| c.get());
+    let info = v::thread_alloc_info().map(|i| fmt_info(&i)).unwrap_or_else(|| "no-thread-info".into());
+    format!("log={} ret={} unserved={} tally={}", log, rets.join(","), items.len() - served.min(items.len()), &info[3..])
+}
+
 /// `churn`: runs the sibling binary `hx-alloc-global <threads> <rounds> <seed>`
 /// (its own process: it installs its own `#[global_allocator]`).
 fn churn(line: &str) -> String {
@@ -549,6 +696,7 @@ fn dispatch(mode: &str, line: &str) -> String {
     match mode {
         "churn" => churn(line),
         "record" => record(line),
+        "nest" => nest(line),
         "tally" => tally(line),
         "threads" => threads(line),
         "prof" => prof(line),
